@@ -217,10 +217,10 @@ PLAN['C14'] = {
 }
 
 
-def partial(name, acts, maxn, adds, stack=0, und=0, fr=0, rst=0, **kw):
+def partial(name, acts, maxn, adds, stack=0, und=0, fr=0, rst=0, last=False, **kw):
     st = {
         'kind': 'gen_replay', 'name': name, 'module': 'Partial', 'fam': 'partial', 'spec': 'Spec', 'view': 'View',
-        'constants': {'MaxN': maxn, 'MaxAdds': adds, 'MaxStack': stack, 'MaxUnd': und, 'MaxFr': fr, 'MaxRst': rst, 'Acts': S(acts)},
+        'constants': {'MaxN': maxn, 'MaxAdds': adds, 'MaxStack': stack, 'MaxUnd': und, 'MaxFr': fr, 'MaxRst': rst, 'Acts': S(acts), 'TrackLast': 'TRUE' if last else 'FALSE'},
         'invariants': ['TypeOK', 'BoundsOK'],
     }
     st.update(kw)
@@ -232,9 +232,10 @@ ALLP = ['mod', 'vrem', 'ingest', 'prune', 'undo', 'fromroots']
 # --------------------------------------------------------------------------- C09
 PLAN['C09'] = {
     'stages': lambda tier, seed: (
-        [partial('partial_all', ALLP, 4, 2, stack=1, und=1, fr=1),
+        [partial('partial_all', ALLP, 4, 2, stack=1, und=1, fr=1, last=True),
          partial('partial_5', ['mod', 'vrem', 'prune'], 5, 2)] if tier == 'quick' else
         [partial('partial_all', ALLP, 5, 3, stack=2, und=2, fr=1),
+         partial('partial_last', ALLP, 5, 2, stack=1, und=1, fr=1, last=True),
          partial('partial_6', ['mod', 'vrem', 'prune', 'undo'], 6, 3, stack=1, und=1)]),
     'rule': 'spec/Partial.tla: TLC enumerates breadth-first all interleavings of Modify (deleting any subset of the '
             'remembered leaves, every remember subset of the additions), Verify(remember) and Ingest of any set of live '
@@ -244,7 +245,7 @@ PLAN['C09'] = {
             'NodeAt(position); StoredLower(cached) within stored within StoredUpper(cached); Prove(cached) = CanonProof; every '
             'remembered leaf provable alone. TLC checks BoundsOK on the specification (the lower bound suffices to prove '
             'every subset). Non-trivial: anything but an empty block; distinct by (witness history, step).',
-    'bounds': {'quick': 'all actions: n<=4, adds 0..2, undo depth 1, one from-roots restart; blocks/verify/prune: n<=5',
+    'bounds': {'quick': 'all actions: n<=4, adds 0..2, undo depth 1, one from-roots restart, one witness history per (state, kind of last action); blocks/verify/prune: n<=5',
                'thorough': 'all actions: n<=5, adds 0..3, undo depth 2; blocks/verify/prune/undo: n<=6'},
     'exhaustive': {'quick': True, 'thorough': True},
     'assumptions': ['free term algebra for hashes', 'proofs handed to Verify(remember)/Ingest are the specification\'s canonical ones',
@@ -609,3 +610,16 @@ PLAN['C14']['stages'] = lambda tier, seed: (
       ops('ops_subset_wide', ['subset'], 9, minn=8, maxreq=3, timeout=14000)]))
 PLAN['C14']['bounds'] = {'quick': PLAN['C14']['bounds']['quick'] + '; wide: every state with 8 leaves, request sets of at most 2 leaves',
                          'thorough': PLAN['C14']['bounds']['thorough'] + '; wide: every state with 8..10 leaves, request sets of at most 2 (3 for restriction) leaves'}
+
+
+# C01 also over the behaviours of the partial forest (blocks that delete remembered leaves without verifying them again,
+# pruning, ingestion, undo, restart from the roots): leaf count and roots after every step
+_c01b = PLAN['C01']['stages']
+PLAN['C01']['stages'] = lambda tier, seed: (
+    _c01b(tier, seed) +
+    ([partial('partial_all', ALLP, 4, 2, stack=1, und=1, fr=1, last=True)] if tier == 'quick' else
+     [partial('partial_all', ALLP, 5, 3, stack=2, und=2, fr=1),
+      partial('partial_last', ALLP, 5, 2, stack=1, und=1, fr=1, last=True)]))
+PLAN['C01']['rule'] += (' The roots and the leaf count are also compared after every step of the behaviours of spec/Partial.tla '
+                        '(partial MapPollard, TotalRows 0/3/63 and from-roots: blocks deleting remembered leaves directly, Verify with '
+                        'remember, Ingest, Prune, Undo), with one witness history per (state, kind of the last action).')
